@@ -1,4 +1,5 @@
 import NeverModel.Lemmas.Frame
+import NeverModel.Model.CompileState
 /-!
 # C15 — the embedding API is repeatable, isolated and deterministic (VM side)
 
@@ -85,5 +86,23 @@ theorem first_execute_initialises_once (md : Module) (vm : Vm) :
 /-- non-vacuity: a concrete machine meeting the hypotheses of the round trip -/
 example : ∃ vm1, markP (Vm.new 10 16) 7 = .ok vm1 ∧ StackOk (Vm.new 10 16) ∧ (Vm.new 10 16).sp + 5 < (Vm.new 10 16).stackSize :=
   (markP_spec (Vm.new 10 16) 7 (by simp [StackOk, Vm.new]) (by decide) (by decide)).imp fun _ h => ⟨h.1, by simp [StackOk, Vm.new], by decide⟩
+
+/-! ### compile side: no state survives from one compilation into the next -/
+
+/-- the translator recognised every shape it met -/
+theorem globals_translated : Never.Gen.Globals.problems = [] := by decide +kernel
+
+/-- **Every variable with static storage duration in front/ and back/ (as regenerated from the current tree, generated
+parser and scanner included) is const, or is listed in `CompileState.table` with a discipline whose side condition holds
+against the regenerated writers and call graph**: never written / assigned by a resetting function that is on the compile
+path / lexer scratch re-established by a reachable function / only meaningful below a reset index / not on the compile
+path at all.  Hence a compilation starts from the same static state whatever was compiled before (`compile_is_history_free`
+in DESIGN.md §3 C15 is this table + the differential run; the semantic step "reset before use" is by inspection of the
+listed functions and is part of the trusted base). -/
+theorem compile_state_accounted : Never.Gen.Globals.vars.all Never.CompileState.accounted = true := by decide +kernel
+
+/-- not vacuous: the tree has mutable static state, and the table distinguishes it -/
+example : (Never.Gen.Globals.vars.filter fun v => !v.isConst).length ≥ 30 := by decide +kernel
+example : Never.CompileState.accounted { file := "front/typecheck.c", name := "expr_check.cache", ctype := "int", isConst := false, owner := "expr_check", writers := ["expr_check"] } = false := by decide +kernel
 
 end Never.C15
